@@ -1,5 +1,5 @@
 """Replay dispatch: name of a bounded stand-in -> function(input) -> (ok, text)."""
-from . import rules, builders, invariance, projects
+from . import rules, builders, invariance, projects, diagrams, layers
 
 RERUN = {
     "C01.verdict-vs-documented-semantics": rules.rerun_verdict,
@@ -16,4 +16,9 @@ RERUN = {
     "C08.exclusions-remove-exactly-matching-paths": projects.rerun_c08,
     "C09.level-limit-is-the-quotient-graph": projects.rerun_c09,
     "C10.external-options-touch-only-externals": projects.rerun_c10,
+    "C06.puml-parse-vs-generated-relation": diagrams.rerun_c06,
+    "C07.diagram-rule-vs-conformance": diagrams.rerun_c07,
+    "C05.layer-verdict-vs-documented-semantics": layers.rerun_c05,
+    "C17.plot-labels-at-the-drawing-backend": layers.rerun_c17,
+    "C14.layer-attribution-and-labels-under-renaming": layers.rerun_c14l,
 }
